@@ -725,10 +725,9 @@ def attrValRest (t : Tokenizer) : Tokenizer :=
     else if q.1.rawE = 0 then { q.1 with panic := true }
     else attrValUnquotedGo { q.1 with pvS := q.1.rawE - 1 }
 
-/-- `read_tag_name_attr_value` -/
-def readTagAttrVal (t : Tokenizer) : Tokenizer :=
-  let t0 := { t with pvS := t.rawE, pvE := t.rawE }
-  let t1 := t0.skipWhiteSpace
+/-- `read_tag_name_attr_value`, after the pending value span was reset -/
+def attrValGo (t : Tokenizer) : Tokenizer :=
+  let t1 := t.skipWhiteSpace
   if t1.err then t1
   else
     let r := t1.readByte
@@ -736,12 +735,19 @@ def readTagAttrVal (t : Tokenizer) : Tokenizer :=
     else if r.2 != 61 then r.1.unread 1
     else attrValRest r.1
 
+/-- `read_tag_name_attr_value` -/
+def readTagAttrVal (t : Tokenizer) : Tokenizer :=
+  attrValGo { t with pvS := t.rawE, pvE := t.rawE }
+
+/-- `self.attribute.push(self.pending_attribute.clone())` -/
+def pushPending (t : Tokenizer) : Tokenizer :=
+  { t with attrs := t.attrs.push ⟨t.pkS, t.pkE, t.pvS, t.pvE⟩ }
+
 /-- one iteration body of the attribute loop of `read_tag`, after the look-ahead byte was unread -/
 def readAttr (t : Tokenizer) (saveAttr : Bool) : Tokenizer :=
   let t1 := t.readTagAttrKey
   let t2 := t1.readTagAttrVal
-  let t3 := if saveAttr && t2.pkS != t2.pkE then
-      { t2 with attrs := t2.attrs.push ⟨t2.pkS, t2.pkE, t2.pvS, t2.pvE⟩ } else t2
+  let t3 := if saveAttr && t2.pkS != t2.pkE then t2.pushPending else t2
   t3.skipWhiteSpace
 
 /-- the attribute `loop` of `read_tag`.  Progress of one iteration depends on the bytes read (a key
@@ -793,28 +799,35 @@ def rawLookup (t : Tokenizer) (first : Nat) : List (Nat × List (List Nat)) → 
   | [] => some false
   | (l, names) :: rest => if first == l then startTagIn t names else rawLookup t first rest
 
+/-- `read_start_tag`: raw-text element detection (`self.raw_tag = ...to_lowercase()`) -/
+def startTagRaw (t1 : Tokenizer) : Tokenizer :=
+  if h : t1.dataS < t1.buf.size then
+    let first := lowerByte t1.buf[t1.dataS]
+    match rawLookup t1 first htmlRawDispatch with
+    | none => { t1 with panic := true }
+    | some false => t1
+    | some true =>
+      -- `String::from_utf8(self.reader[data.start..data.end].to_vec())?.to_lowercase()`
+      match t1.slice? t1.dataS t1.dataE with
+      | none => { t1 with panic := true }
+      | some bs => if validUtf8 bs then { t1 with rawTag := bs.map lowerByte } else { t1 with utf8Err := true }
+  else { t1 with panic := true }
+
+/-- `read_start_tag`: `if self.err.is_none() && self.reader[self.raw.end - 2] == b'/'` -/
+def startTagKind (t2 : Tokenizer) : TokenType :=
+  if h2 : t2.rawE - 2 < t2.buf.size then
+    if !t2.err && t2.buf[t2.rawE - 2] == 47 then .selfClosing else .startTag
+  else .error
+
 /-- `read_start_tag` -/
 def readStartTag (t : Tokenizer) : Tokenizer × TokenType :=
   let t1 := t.readTag true
   if t1.err then (t1, .error)
-  else if h : t1.dataS < t1.buf.size then
-    let first := lowerByte t1.buf[t1.dataS]
-    match rawLookup t1 first htmlRawDispatch with
-    | none => ({ t1 with panic := true }, .error)
-    | some raw =>
-      -- `String::from_utf8(self.reader[data.start..data.end].to_vec())?.to_lowercase()`
-      let t2 : Tokenizer :=
-        if raw then
-          match t1.slice? t1.dataS t1.dataE with
-          | none => { t1 with panic := true }
-          | some bs => if validUtf8 bs then { t1 with rawTag := bs.map lowerByte } else { t1 with utf8Err := true }
-        else t1
-      if t2.utf8Err then (t2, .error)
-      else if t2.rawE < 2 then ({ t2 with panic := true }, .error)
-      else if h2 : t2.rawE - 2 < t2.buf.size then
-        if !t2.err && t2.buf[t2.rawE - 2] == 47 then (t2, .selfClosing) else (t2, .startTag)
-      else ({ t2 with panic := true }, .error)
-  else ({ t1 with panic := true }, .error)
+  else
+    let t2 := t1.startTagRaw
+    if t2.panic || t2.utf8Err then (t2, .error)
+    else if t2.rawE < 2 || t2.buf.size ≤ t2.rawE - 2 then ({ t2 with panic := true }, .error)
+    else (t2, t2.startTagKind)
 
 /-! ### `next` -/
 
